@@ -15,7 +15,7 @@ def run(ctx):
     ctx.add_assumption('Bus::send is verified with the borrow line removed and the returned Output reduced to its key (R-refcell / '
                        'R-subst); the Output methods (next, pending_frames, is_exhausted, Drop::drop) are verified to forward to the SharedNode method with their own key, the RefCell borrow read as a parameter; NOT verified: the Rc<RefCell<..>> handle itself and the drop glue, key wrap-around after 2^64 sends '
                        '(fresh key is a precondition); backlog length < usize::MAX is a precondition of next_frame (T5)')
-    ctx.notes.append('SharedNode::{next_frame, pending_frames, drop_output} verified against an abstract view (read counts, backlog) '
+    ctx.notes.append('SharedNode::{next_frame, pending_frames, drop_output}, Bus::send and Output::{next, pending_frames, is_exhausted, drop} verified against an abstract view (read counts, backlog) '
                      'with representation invariant `every count <= backlog length and, if the backlog is non-empty, some live output has '
                      'read none of it`; lemma_bus_next: each output receives the frame at its own position of the common history, the '
                      'source is pulled exactly at the head; lemma_bus_pending: pending == frames pulled but not yet received')
